@@ -29,7 +29,8 @@ RULE = ('70% E1 / 30% E2 histories driven to a quiescent state (cycle until '
         'distinct = canonical JSON.'
         ' Since rounds 5-7: histories include instances that lost their server outside a cycle and identity groups; a quarter of the E1 probes arrive behind two same-shape instances that are impossible in one dimension each; E2 probes are judged against the quiescent pre-state as well.'
         " Since round 8: where an ancestor's aggregate (free capacity, traits, labels, reboot time) looks smaller than what an up server below it offers, the probe is aimed at that server (the hint only chooses the probe, the verdict stays ground truth); rackshift macro (largest server of a rack fails, a smaller one joins, work lands on what is left)."
-        ' Since round 9: retrait macro (a node comes back with other traits, same capacity); E2 probes aimed by the traits hint.')
+        ' Since round 9: retrait macro (a node comes back with other traits, same capacity); E2 probes aimed by the traits hint.'
+        ' Since round 11: a quarter of the E1 probes declare limits of their own (the same values at other levels) under an affinity name other instances use.')
 ASSUMPTIONS = [
     'virtual clock replaces the time module in the scheduler modules',
     'apps ahead of the probe in the queue behave as in the quiescent cycle, '
@@ -252,6 +253,24 @@ def execute(case, stats):
                 sim.apply(big)
             stats.count('probe_skewed_company')
         if case.get('probe_relimit') and not e2 and len(probe_op) == 10:
+            # aim: the shape (allocation, affinity name, lease, traits) of an
+            # instance that is pending in the quiescent cell and declares
+            # limits - whatever the cycle learns from its failure must not
+            # rule out a probe whose limits sit at other levels
+            pend = [n for n in sorted(sim.cell.apps)
+                    if sim.cell.apps[n].server is None and
+                    sim.decl_apps[n]['limits'] and
+                    not sim.cell.apps[n].blacklisted]
+            if pend:
+                src = sim.decl_apps[pend[case['probe_relimit'] % len(pend)]]
+                probe_op[1] = src['alloc']
+                probe_op[2] = [a['name'] for a in sim.affs].index(src['aff'])
+                probe_op[5] = src['lease']
+                probe_op[7] = None
+                probe_op[8] = src['inst_traits']
+                probe_op[3] = [max(p, d) for p, d in
+                               zip(probe_op[3], src['demand'])]
+                stats.count('probe_own_limits_aimed')
             aff = sim.affs[probe_op[2] % len(sim.affs)]
             levels = list(gen.LEVELS)
             shift = case['probe_relimit']
